@@ -84,17 +84,24 @@ def run(ctx):
     still = []
     for k in ALL:
         T, lines = REPRO[k]
-        failed, why = run_one(ctx, exe, ["Svc %d" % T] + lines, "KF-C04-%d" % k, [])
         kid = "KF-C04-%d" % k
-        if failed:
-            if registered.get(kid, {}).get("status") == "fixed":
-                ctx.violation("%s is recorded as fixed but its reproducer fails again: %s" % (kid, why),
-                              ctx.save(kid + ".sched", "\n".join(["Svc %d" % T] + lines) + "\n"))
-                continue
+        status = registered.get(kid, {}).get("status")
+        failed, why = False, ""
+        for attempt in range(3):          # two of the reproducers rely on descriptor numbers being reused
+            failed, why = run_one(ctx, exe, ["Svc %d" % T] + lines, "%s-%d" % (kid, attempt), [])
+            if failed:
+                break
+        if failed and status == "fixed":
+            ctx.violation("%s is recorded as fixed but its reproducer fails again: %s" % (kid, why),
+                          ctx.save(kid + ".sched", "\n".join(["Svc %d" % T] + lines) + "\n"))
+        elif failed:
             still.append(k)
             ctx.known(kid, WHAT[k] + " -- " + why)
-            if kid not in registered:
+            if status is None:
                 ctx.notes.append("%s reproduces but is not yet listed in known_findings.jsonl" % kid)
+        elif status == "known":
+            still.append(k)               # listed and not reproduced this time: its trigger stays out, nothing is claimed
+            ctx.notes.append("%s is listed as known but did not reproduce in this run" % kid)
         else:
             ctx.notes.append("%s no longer reproduces" % kid)
     ctx.log("recorded findings that still reproduce: %s" % (["KF-C04-%d" % k for k in still] or "none"))
@@ -136,6 +143,26 @@ def run(ctx):
     progs += [["Svc %d" % REPRO[k][0]] + REPRO[k][1] for k in ALL if k not in still]      # repaired: ordinary scenarios now
     nd = len(progs)
     progs += [gen.program(rng) for _ in range(n)]
+    nr = len(progs) - nd
+    # spec -> code: random walks of the closed model (the application's and the environment's choices), executed on the
+    # real library on both transports
+    import json
+    gcfg = ctx.cfg("IpcLifeGen_sim.cfg", "CONSTANTS MaxConn = 3  MaxBody = 2  MaxTop = 7  MaxRetry = 2\nCONSTANTS Fix = {%s}  Skip = {%s}\n"
+                   "SPECIFICATION GenSpec\nCONSTRAINT Emit\nCHECK_DEADLOCK FALSE\n" % (", ".join(map(str, mfix)), ", ".join(map(str, mstill))))
+    seen = set()
+    for rnd in range(2 if q else 12):
+        g = ctx._tlc("IpcLifeGen.tla", gcfg, 1, extra=["-simulate", "num=%d" % 2500, "-depth", "600", "-seed", str(ctx.seed * 100 + rnd)],
+                     timeout=900, jvm=("-Xmx4g",), tag="gen%d" % rnd)
+        if g.rc != 0:
+            raise core.Infra("TLC generation failed (rc=%d):\n%s" % (g.rc, g.out[-3000:]))
+        for m in re.finditer(r'^"GEN (.*)"$', g.out, re.M):
+            seen.add(m.group(1))
+    hs = [json.loads(json.loads('"' + x + '"')) for x in sorted(seen)]
+    hs = [h for h in hs if any(e[0] == "Connect" for e in h)]
+    ctx.log("%d distinct model behaviours with at least one connection" % len(hs))
+    ctx.cov["programs_from_model"] = len(hs)
+    progs += [gen.from_model(h, i % 2) for i, h in enumerate(hs)]
+    ctx.sample({"model_behaviour": hs[len(hs) // 2], "program": progs[-(len(hs) - len(hs) // 2)]})
     ctx.sample({"program": progs[4]})
     ctx.sample({"program": progs[nd]})
     ctx.log("%d programs (%d directed)" % (len(progs), nd))
@@ -144,7 +171,7 @@ def run(ctx):
         ctx.exec_validate(exe, progs[b:b + 8000], lambda p: p, "IpcLifeTrace.tla", "IpcLifeTrace.cfg", nshards=4,
                           label="c04-%d" % (b // 8000), harness_args=hargs, timeout=1500)
     ctx.cov["programs_directed"] = nd
-    ctx.cov["programs_random"] = len(progs) - nd
+    ctx.cov["programs_random"] = nr
     ctx.cov["exhaustive"] = True
     ctx.cov["model_bounds"] = "2 connections, %d API call(s) per callback, %d main-loop moves, 1 closed retry per connection" % (body, top)
     ctx.assumptions += [
